@@ -4,7 +4,7 @@ here=$(cd "$(dirname "$0")/.." && pwd)
 tier=${1:-quick}
 rc=0
 for p in C04 C05 C06 C07 C13 C14 C19; do
-  log=$(mktemp /tmp/vsim-$p-XXXX.log)
+  log=$(mktemp /tmp/runall-$p-XXXX.log)
   "$here/bin/vsim" check $p --tier $tier > $log 2>&1
   c=$?
   tail -1 $log
